@@ -134,6 +134,39 @@ pub fn c11(rep: &mut Report, aux: &str, thorough: bool, seed: u64) {
                 let ivs = parse_ir_intervals(&ir);
                 rep.tie(req, format!("cc {}", ivs_text(&ivs)));
                 rep.count_n("intervals", ivs.len() as u64);
+                // the same property twice in one pattern, in both polarities: each occurrence keeps its own meaning
+                let member = ivs.iter().map(|iv| iv.0).find(|c| char::from_u32(*c).is_some());
+                let mut non = 0u32;
+                for &(a, b) in &ivs {
+                    if non < a {
+                        break;
+                    }
+                    non = b + 1;
+                }
+                if let (Some(m), Some(nm)) = (member.and_then(char::from_u32), char::from_u32(non)) {
+                    let neg = pat.replace("\\p", "\\P");
+                    let combos: [(String, [bool; 4]); 4] = [
+                        (format!("^{}{}$", pat, neg), [false, true, false, false]),
+                        (format!("^{}{}$", neg, pat), [false, false, true, false]),
+                        (format!("^[^{}]{}$", pat, pat), [false, false, true, false]),
+                        (format!("^(?:{}|{}){}$", pat, neg, pat), [true, false, true, false]),
+                    ];
+                    let hays = [format!("{}{}", m, m), format!("{}{}", m, nm), format!("{}{}", nm, m), format!("{}{}", nm, nm)];
+                    for (cp, want) in combos.iter() {
+                        for opt in [false, true] {
+                            let Ok(cre) = compile(cp, "u", opt) else {
+                                rep.violation("impl-vs-oracle", format!("{} rejected", cp), line.to_string());
+                                continue;
+                            };
+                            for (h, w) in hays.iter().zip(want.iter()) {
+                                rep.count("combination-probes");
+                                if cre.find(h).is_some() != *w {
+                                    rep.violation("impl-vs-impl", format!("{} (no_opt={}) on {:?}: expected {}, the two occurrences of the property do not keep their own meaning", cp, opt, h, w), line.to_string());
+                                }
+                            }
+                        }
+                    }
+                }
                 // run-time path: the set of chars the engine matches is the table (minus surrogates)
                 if thorough || rng.chance(1, 8) {
                     rep.count("runtime-sweep");
